@@ -3,7 +3,8 @@ CHECK_TEXT = {
         "text": ("Proof. (1) Every varint/zigzag/fixed-width leaf codec of the real PostcardEncoder/PostcardDecoder round-trips on its FULL input "
                  "domain, with exact consumption and back-to-back self-delimitation (Kani/CBMC, loops unrolled to operand width with unwinding "
                  "assertions: complete, not bounded). (2) The real generic Encode/Decode impl bodies (Option, Result, tuples 1-12, Vec, slices, "
-                 "Box/Rc/Arc, boxed/shared slices, arrays(encode), ranges, Bound, NonZero*, Duration, Cell, Wrapping, Reverse, PhantomData, unit, primitives) "
+                 "Box/Rc/Arc, boxed/shared slices, arrays(encode), ranges, Bound, NonZero*, Duration, Cell, Wrapping, Reverse, PhantomData, unit, primitives, strings, VecDeque; "
+                 "HashMap/HashSet against relational contracts since their image follows the iteration order) "
                  "are extracted mechanically on every run and verified by Verus against trait-level contracts (encode appends exactly the image; "
                  "decode of image+tail returns a value with the same image and leaves exactly tail; every image is prefix-free), for ALL type "
                  "instantiations and nesting depths by modularity. (3) PostcardEncoder<W>/PostcardDecoder<R> themselves are verified by Verus against those "
@@ -14,7 +15,7 @@ CHECK_TEXT = {
         "design_ref": "DESIGN.md section 5 (C12)",
         "note": ("Trusted: Verus/Z3, Kani/CBMC; io::Write modelled as an appending writer, io::Read as a reliable in-memory reader; "
                  "std models listed in evidence.trusted_base; Plugin opaque, Session a typed-slot stand-in. NOT under contract (stated in evidence, covered by the "
-                 "bounded run only): String/str/Path, VecDeque/LinkedList/BTree*/Hash*/Dash* collections, Cow, RefCell, atomics, [T;N]::decode, SmallVec, BitVec, "
+                 "bounded run only): Path/OsStr, LinkedList/BTree*/Dash* collections, Cow, RefCell, atomics, [T;N]::decode, SmallVec, BitVec, "
                  "the Decode impls of Interned<..> (shared interner state)."),
         "technique": "contract-based deductive verification: Verus (Z3) on mechanically extracted real impls + Kani function-level full-domain harnesses",
     },
